@@ -70,6 +70,26 @@ class RecDict(dict):
         return super().items()
 
 
+_SUB = contextvars.ContextVar("verif_sub_call", default=None)
+
+
+class RecSet(set):
+    """the processing set: logs which concurrent sub-call removed which message (order of effects under asyncio.gather)"""
+
+    def __init__(self) -> None:
+        super().__init__()
+        self.removals: list = []
+
+    def remove(self, m):
+        self.removals.append((_SUB.get(), num(m.key.id_)))
+        return super().remove(m)
+
+    def discard(self, m):
+        if m in self:
+            self.removals.append((_SUB.get(), num(m.key.id_)))
+        return super().discard(m)
+
+
 def num(s: str) -> int:
     return int(s[1:])
 
@@ -92,6 +112,7 @@ class MemWorld:
             dq.simple = RecQueue(self.events)
             dq.delayed = RecDict(self.events)
             dq.dead = RecList(self.events)
+            dq.processing = RecSet()
         for c, (q, cat, topics) in consumers.items():
             cons = self.w.mb.get_consumer(f"q{q}", None if topics is None else [f"t{t}" for t in topics], None, CATS[cat])
             await cons.start()
@@ -264,7 +285,8 @@ async def exec_ops(mw: MemWorld, ops: list, loop, terms: list, obs: list, trace:
                 terms.append(f"(ORequeue {i} {q} {mw.msg_term(i, o['topic'], q, o.get('prio', 5), payload, p)} {ct.Z(now)})")
                 obs += [0] + after
             trace.append({"op": "requeue", "id": i, "queue": q, "t": now, "applied": after != before, "cancelled": cancelled,
-                          "params": p, "payload": payload, "held_before": held_before.get(i)})
+                          "params": p, "payload": payload, "held_before": held_before.get(i), "how": o.get("how"),
+                          "params_before": o.get("params_before")})
         elif kind == "consume":
             c = o["c"]
             q, cat, topics = mw.cspec[c]
@@ -403,6 +425,70 @@ async def exec_ops(mw: MemWorld, ops: list, loop, terms: list, obs: list, trace:
             obs += [0] + after
             trace.append({"op": "finish", "c": c, "queue": q, "t": now, "returned": mine})
 
+        elif kind == "together":
+            # several broker calls started in the same loop iteration (asyncio.gather): every in-memory call is one atomic
+            # block after one sleep(0), so on the code as modelled their effects happen in start order
+            subs = o["subs"]
+            mine = {}
+            coros = []
+            for sb in subs:
+                if sb["k"] == "finish":
+                    c = sb["c"]
+                    q = mw.cspec[c][0]
+                    mine[c] = sorted(i for i, (cc, qq) in held_before.items() if cc == c and qq == q)
+
+                    async def fin(c=c):
+                        await mw.consumers[c].finish()
+                        await mw.consumers[c].start()
+                    coros.append(fin())
+                elif sb["k"] == "requeue":
+                    sb["params_obj"] = build_params(sb["params"], now)
+                    kk = key(f"m{sb['id']}", f"t{sb['topic']}", f"q{sb['queue']}", 5)
+                    coros.append(mb.requeue(kk, f"p{sb['id']}r{sb.get('rev', 1)}", sb["params_obj"]))
+                else:
+                    coros.append(getattr(mb, sb["k"])(key(f"m{sb['id']}", "t1", f"q{sb['queue']}")))
+            async def run_sub(j, coro):
+                _SUB.set(j)
+                return await coro
+
+            for q_ in mw.qs:
+                mw.w.mb.queues[f"q{q_}"].processing.removals.clear()
+            await asyncio.gather(*(run_sub(j, co) for j, co in enumerate(coros)))
+            after = mw.enc_state()
+            # order of effects = order of the first removal made by each sub-call; calls that removed nothing found
+            # their message already gone (or hold nothing): they are no-ops wherever they are placed
+            first = {}
+            for q_ in mw.qs:
+                for j, _i in mw.w.mb.queues[f"q{q_}"].processing.removals:
+                    first.setdefault(j, len(first))
+            order_subs = sorted(range(len(subs)), key=lambda j: (first.get(j, 10**6), j))
+            subs = [subs[j] for j in order_subs]
+            new_terms = []
+            for sb in subs:
+                if sb["k"] == "finish":
+                    c = sb["c"]
+                    q = mw.cspec[c][0]
+                    snap = mw.w.snapshot(f"q{q}")
+                    dq = mw.w.mb.queues[f"q{q}"]
+                    seq_after = [num(m.key.id_) for m in snap["simple"]] + \
+                                [num(m.key.id_) for _, ms in dict.items(dq.delayed) for m in ms] + [num(m.key.id_) for m in snap["dead"]]
+                    order = [i for i in seq_after if i in mine[c]] + [i for i in mine[c] if i not in seq_after]
+                    new_terms.append(f"(OFinish {c} {q} {ct.zlist(order)})")
+                elif sb["k"] == "requeue":
+                    new_terms.append(f"(ORequeue {sb['id']} {sb['queue']} "
+                                     f"{mw.msg_term(sb['id'], sb['topic'], sb['queue'], 5, 'p%dr%d' % (sb['id'], sb.get('rev', 1)), sb['params_obj'])} {ct.Z(now)})")
+                else:
+                    new_terms.append(f"({ {'ack': 'OAck', 'nack': 'ONack', 'reject': 'OReject'}[sb['k']]} {sb['id']} {sb['queue']})")
+            for j, t_ in enumerate(new_terms):
+                if j < len(new_terms) - 1:
+                    terms.append("Q" + t_)
+                    obs.append(0)
+                else:
+                    terms.append(t_)
+                    obs += [0] + after
+            trace.append({"op": "together", "t": now, "held_before": dict(held_before), "mine": mine,
+                          "subs": [{k_: v for k_, v in sb.items() if k_ != "params_obj"} | ({"params": sb["params_obj"]} if "params_obj" in sb else {}) for sb in subs]})
+
 
 def finish_history(mw: MemWorld, terms: list, obs: list, trace: list) -> dict:
     obs = obs + [-7] + mw.enc_state() + [-8] + mw.enc_full()
@@ -493,8 +579,10 @@ def gen_history(rng, *, n_ops: int, cuts: bool = True, delays: bool = True, ttls
                         "timeout": rng.choice([0.0035, 0.0105])})
         elif r < 0.82:
             ops.append({"op": "terminal"})          # resolved at run time against what is held
-        elif r < 0.88:
+        elif r < 0.86:
             ops.append({"op": "finish", "c": rng.choice(list(consumers))})
+        elif r < 0.89:
+            ops.append({"op": "together_gen"})      # finish() of a holder concurrently with terminal calls on held messages
         else:
             ops.append({"op": "tick", "d": rng.choice([0, 500, 1000, 3000, 50000, 2 * S])})
     return {"queues": queues, "consumers": consumers, "ops": ops, "known": known}
@@ -507,6 +595,30 @@ async def run_generated(hist: dict, loop, rng) -> dict:
     loop.max_iterations = loop.iteration + 2_000_000
     terms, obs, trace = [], [], []
     for o in hist["ops"]:
+        if o["op"] == "together_gen":
+            held = mw.held()
+            by_c: dict = {}
+            for i, (c, q) in held.items():
+                by_c.setdefault(c, []).append((i, q))
+            if not by_c:
+                continue
+            c = rng.choice(sorted(by_c, key=lambda c: (-len(by_c[c]), c))[:2])
+            subs = [{"k": "finish", "c": c}]
+            pool = sorted(held)
+            rng.shuffle(pool)
+            for i in pool[:rng.randint(1, 3)]:
+                kq = held[i][1]
+                k = rng.choice(["reject", "reject", "reject", "ack", "nack"])
+                if k == "requeue":
+                    subs.append({"k": "requeue", "id": i, "queue": kq, "topic": hist["known"][i][1], "params": {}, "rev": rng.randint(1, 9)})
+                else:
+                    subs.append({"k": k, "id": i, "queue": kq})
+            if rng.random() < 0.5:
+                subs = subs[1:] + subs[:1]
+            elif rng.random() < 0.5:
+                rng.shuffle(subs)
+            await exec_ops(mw, [{"op": "together", "subs": subs}], loop, terms, obs, trace)
+            continue
         if o["op"] == "terminal":
             held = mw.held()
             if not held:
@@ -524,7 +636,7 @@ async def run_generated(hist: dict, loop, rng) -> dict:
                 else:
                     pobj = pp._prepare_reschedule()
                 o = {"op": "requeue", "id": i, "queue": q, "topic": hist["known"][i][1], "params": {}, "params_obj": pobj,
-                     "cut": cut, "rev": rng.randint(1, 9)}
+                     "cut": cut, "rev": rng.randint(1, 9), "how": kind, "params_before": pp}
             elif kind == "requeue":
                 spec = {"tried": rng.randint(0, 2), "max": 2}
                 if rng.random() < 0.6:
